@@ -178,6 +178,59 @@ func c11Birth(c *core.Ctx) {
 			}
 		}
 	}
+	// a loop replaced by a callback iterator: the births sit in a function literal handed to a
+	// same-package helper that contains the `for` and calls its func parameter there
+	containsBirth := func(g *flow.Func, n ast.Node) bool {
+		hit := false
+		for _, call := range calls(n, true) {
+			if isBirth(g, call) != "" {
+				hit = true
+			} else if callee, ok := g.Callee(call).(*types.Func); ok && birthy[callee.Origin()] {
+				hit = true
+			}
+		}
+		return hit
+	}
+	for _, fd := range decls {
+		g := flow.NewFunc(pkg, fd)
+		for _, call := range calls(fd.Body, true) {
+			callee, ok := g.Callee(call).(*types.Func)
+			if !ok {
+				continue
+			}
+			hd := decls[callee.Origin()]
+			if hd == nil {
+				continue
+			}
+			for i, a := range call.Args {
+				lit, ok := ast.Unparen(a).(*ast.FuncLit)
+				if !ok || !containsBirth(g, lit.Body) {
+					continue
+				}
+				// the i-th parameter of the helper
+				var pobj types.Object
+				k := 0
+				for _, fl := range hd.Type.Params.List {
+					for _, nm := range fl.Names {
+						if k == i {
+							pobj = pkg.TypesInfo.Defs[nm]
+						}
+						k++
+					}
+				}
+				if pobj == nil {
+					continue
+				}
+				for _, inner := range calls(hd.Body, true) {
+					if id, ok := ast.Unparen(inner.Fun).(*ast.Ident); ok && pkg.TypesInfo.Uses[id] == pobj {
+						for _, l := range enclosingLoops(hd.Body, inner) {
+							birthLoop[l] = true
+						}
+					}
+				}
+			}
+		}
+	}
 	if !c.RequireCount("R-C11-11", "Filter.Init call sites in package pipeline", nBirth["init"], 1) ||
 		!c.RequireCount("R-C11-11", "Filter.Inherit call sites in package pipeline", nBirth["inherit"], 1) {
 		return
@@ -225,7 +278,7 @@ func c11Birth(c *core.Ctx) {
 		if m == "Inherit" {
 			rootPos = pos(c, f.Node.(*ast.FuncDecl).Name)
 		}
-		res := analyze(c, f, flow.Config{NoHavoc: true, Track: func(string) bool { return false }, Inline: inlineSamePkg(f),
+		res := analyze(c, f, flow.Config{NoHavoc: true, Track: func(string) bool { return false }, Inline: inlineSamePkg(f), InlineClosures: true,
 			OnBlock: func(st *flow.State, b *cfg.Block) {
 				if b.Stmt == nil || !birthLoop[b.Stmt] {
 					return
